@@ -16,6 +16,8 @@ RULE = ("case = generated 2D/3D plotfile (levels, mixed box extents, boxes scatt
         "schedule (W, completion order, lazy/eager delivery; all completion orders are reachable through the "
         "single-draw permutation for <=6 per-file tasks; for levels with 2-4 binary files ALL feasible completion "
         "orders x W in {1,2,16} x {lazy, eager} are enumerated as well) plus .iter(sel) for int/slice/list/mask selections; "
+        "in 2 of 5 iteration cases the selection object was iterated in part before; fault arm (an eighth): the worker "
+        "processes of a pool cannot be started (EAGAIN) - the iteration may fail, one that completes must be exact; "
         "non-trivial = the level has >=2 binary files (>=2 pool tasks) or a non-monotone file layout; "
         "distinct = hash of (world summary, selector, level, schedule)")
 ASSUMPTIONS = ["independent reader/model (sim/world.py, sim/reader.py) is the oracle",
